@@ -48,8 +48,29 @@ m = {
     'notes': 'VERIF_REPO=<dir> points the checks at another working tree (default /repo). See DESIGN.md.',
 }
 (V / 'MANIFEST.json').write_text(json.dumps(m, indent=1) + '\n')
+import re
+import subprocess
 kn = []
+try:
+    log = subprocess.run(['git', '-C', '/repo', 'log', '--format=%h\t%s'], capture_output=True, text=True).stdout
+except Exception:
+    log = ''
+commits = {}
+for ln in log.splitlines():
+    h, _, subj = ln.partition('\t')
+    commits[subj.strip()] = h
 for f in sorted((V / 'known.d').glob('*.json')):
-    kn += json.loads(f.read_text())
+    for e in json.loads(f.read_text()):
+        if e.get('status') == 'fixed':
+            # the repair is a fixes/*.diff whose first line is the commit subject in /repo
+            m = re.search(r'fixes/[\w.+-]+\.diff', json.dumps(e))
+            if m and (V / m.group(0)).exists():
+                e.setdefault('fix', m.group(0))
+                subj = (V / m.group(0)).read_text().splitlines()[0].lstrip('# ').strip()
+                if subj in commits:
+                    e['commit'] = commits[subj]
+            e['fixed_line'] = 'fixed: property=%s %s %s' % (e['property'], e.get('commit', '<not yet committed>'),
+                                                           e.get('what', '')[:200])
+        kn.append(e)
 (V / 'known_findings.json').write_text(json.dumps({'findings': kn}, indent=1) + '\n')
 print('MANIFEST: %d checks, %d not_applicable; known findings: %d' % (len(checks), len(na), len(kn)))
